@@ -1,5 +1,8 @@
 import LowProofs.Props.C01
+import LowProofs.Props.C02
+import LowProofs.Props.C09
 /-
+  (Imports model-side property files only: nothing here depends on regenerated code.)
   Helper lemmas for the end-to-end theorems (`LowProofs/E2E/Cxx.lean`): bounds on the values the model-built
   indexes contain, so that the int32-domain hypotheses of the tie theorems follow from hypotheses about the
   inputs alone.
@@ -45,5 +48,46 @@ theorem indexRank128_mem_le {ws : List Nat} {n : Nat} (h : n ∈ indexRank128 ws
       | succ d ih =>
         rw [← Nat.add_assoc, rank, ih, bitAt_oob (by omega)]; rfl
     rw [h1]; exact rank_le ws _
+
+/-! ### C02: the select index -/
+
+theorem ones_length_le (ws : List Nat) : (ones ws).length ≤ 64 * ws.length := by
+  have := List.length_filter_le (bitAt ws) (List.range (64 * ws.length))
+  simpa [ones] using this
+
+theorem ones_mem_lt {ws : List Nat} {p : Nat} (h : p ∈ ones ws) : p < 64 * ws.length := by
+  simp only [ones, List.mem_filter, List.mem_range] at h; exact h.1
+
+theorem indexSelect32_length_le (ws : List Nat) : (indexSelect32 ws).length ≤ 2 * ws.length + 1 := by
+  rw [C02_indexSelect32, List.length_map, List.length_range]
+  have := ones_length_le ws; omega
+
+theorem indexSelect32_mem_lt {ws : List Nat} {n : Nat} (h : n ∈ indexSelect32 ws) : n < 64 * ws.length ∨ n = 0 := by
+  rw [C02_indexSelect32, List.mem_map] at h
+  obtain ⟨k, _, rfl⟩ := h
+  simp only [List.getD]
+  cases hk : (ones ws)[32 * k]? with
+  | none => right; rfl
+  | some p => left; exact ones_mem_lt (List.mem_of_getElem? hk)
+
+theorem indexRank64_length (ws : List Nat) (t : Bool) : (indexRank64 ws t).length = ws.length + t.toNat := by
+  rw [C01_indexRank64, List.length_map, List.length_range]
+
+/-! ### C09: length of an encoding -/
+
+/-- an encoding returned by `New(s, …)` has at most `len(s) + 1` bytes (no hypothesis) -/
+theorem bsNew_length_le {s : List Nat} {f t : Nat} {enc : List Nat} (h : bsNew s f t = some enc) :
+    enc.length ≤ s.length + 1 := by
+  unfold bsNew at h
+  split at h
+  · cases h; simp
+  · simp only at h
+    split at h
+    · cases h
+    · split at h
+      · cases h
+      · cases h
+        simp only [List.length_append, List.length_take, List.length_drop, List.length_cons, List.length_nil]
+        omega
 
 end Low.E2EL
